@@ -284,10 +284,72 @@ pub fn run(ctx: &Ctx) -> Report {
         st = st.merge(part);
     }
 
+    // (3) pair histories on one thread: two requests whose date texts have the same wall-clock digits and the same
+    //     fraction (0, 9, 21 or 40 digits) and differ only in the zone designator — different instants, written alike
+    //     up to the last few characters. The second is judged as if it were alone.
+    {
+        let server = servers[0];
+        let zones: [(&str, i64); 6] = [("Z", 0), ("+00:00", 0), ("+05:00", 300), ("-05:00", -300), ("+0010", 10), ("-00:14", -14)];
+        let fracs = [0usize, 9, 21, 40];
+        // (text, instant)
+        let mut texts: Vec<(String, Instant)> = Vec::new();
+        for extended in [false, true] {
+            for &f in &fracs {
+                for sep in [".", ","] {
+                    if f == 0 && sep == "," {
+                        continue;
+                    }
+                    for (z, off_min) in zones {
+                        let (y, m, d, h, mi, sec) = server.civil();
+                        let digits = if extended {
+                            format!("{:04}-{:02}-{:02}T{:02}:{:02}:{:02}", y, m, d, h, mi, sec)
+                        } else {
+                            format!("{:04}{:02}{:02}T{:02}{:02}{:02}", y, m, d, h, mi, sec)
+                        };
+                        let frac = if f == 0 { String::new() } else { format!("{}{}", sep, "0".repeat(f)) };
+                        // written local time L in zone +off means the instant L - off
+                        texts.push((format!("{}{}{}", digits, frac, z), Instant::new(server.secs - off_min * 60, 0)));
+                    }
+                }
+            }
+        }
+        let nt = texts.len() as u64;
+        let base3 = total + 50_000_000;
+        let make = |k: u64, carrier: Carrier| -> Case {
+            let (text, inst) = &texts[k as usize];
+            let mut plan = e2e::base_plan(carrier);
+            plan.instant = *inst;
+            plan.date_text = text.clone();
+            e2e::rekey(&mut plan, e2e::SECRET, "us-east-1", "service");
+            Case { wire: WireReq::from_wire(&build(&plan).wire), cfg: Cfg::basic(server), prov: ProvSpec::standard() }
+        };
+        let part = par_sweep(nt * nt * 2, |i, st| {
+            let carrier = if i % 2 == 0 { Carrier::Header } else { Carrier::Query };
+            let (a, b) = ((i / 2) / nt, (i / 2) % nt);
+            let first = make(a, carrier);
+            let second = make(b, carrier);
+            let before = st.violations.len();
+            e2e::judge_into(base3 + i * 2, &first, st);
+            if st.violations.len() > before {
+                return;
+            }
+            let j = e2e::judge_into(base3 + i * 2 + 1, &second, st);
+            if st.violations.len() > before {
+                if let Some(v) = st.violations.last_mut() {
+                    v.case["preceded_by"] = json!({"e2e": first});
+                    v.what = format!("{} (right after a request dated {:?} on the same thread; this one is dated {:?})", v.what, texts[a as usize].0, texts[b as usize].0);
+                }
+            }
+            st.state(&(j.reference.stage as u8, "date-text-pairs"));
+            st.nontrivial(&(a, b, carrier, "date-text-pairs"));
+        });
+        st = st.merge(part);
+    }
+
     Report {
         stats: st,
         rule: format!(
-            "{} server instants (plain, +1 ns, +999999999 ns, leap day, month/year/day boundaries) x {} offsets request-server (every whole second in [-1200 s, +1200 s]; +-1, 2, 1000 ns, 1 ms, 999999999 ns around both bounds; {} millisecond points within +-2 s of both bounds; +-1 h, 1 day, 1 year, 901 s) x {} renderings (basic/extended Z, +05:30, -08:00, +14:00, -12:00, 9/12-digit fractions with '.' and ',', fractions of 20, 49 and 309 digits, +-00:01, -09:30, +12:45, -0000) x carrier x {} lifetime decorations (none, or X-Amz-Expires = 60 .. 604800 s as a signed query parameter / signed header next to an Expires header) x session token present or not; every request freshly and correctly signed (scope date = UTC date of its instant). Oracle: Ok iff |t - now| <= 900 s at nanosecond resolution; otherwise SignatureDoesNotMatch/403 with an empty provider log; (2) every sequence of 1..2 (thorough 3) operations {{prevalidate, validate_signature, validate_signature on a clone}} x 3 configurations (the request's own scope, another service, a 5-minute window) x 5 server clocks (0, +900, +901, -901, +960 s) on one authenticator object built through the unstable API from a valid request, on both carriers, each operation judged alone. states = (inside, side, stage)",
+            "{} server instants (plain, +1 ns, +999999999 ns, leap day, month/year/day boundaries) x {} offsets request-server (every whole second in [-1200 s, +1200 s]; +-1, 2, 1000 ns, 1 ms, 999999999 ns around both bounds; {} millisecond points within +-2 s of both bounds; +-1 h, 1 day, 1 year, 901 s) x {} renderings (basic/extended Z, +05:30, -08:00, +14:00, -12:00, 9/12-digit fractions with '.' and ',', fractions of 20, 49 and 309 digits, +-00:01, -09:30, +12:45, -0000) x carrier x {} lifetime decorations (none, or X-Amz-Expires = 60 .. 604800 s as a signed query parameter / signed header next to an Expires header) x session token present or not; every request freshly and correctly signed (scope date = UTC date of its instant). Oracle: Ok iff |t - now| <= 900 s at nanosecond resolution; otherwise SignatureDoesNotMatch/403 with an empty provider log; (2) every sequence of 1..2 (thorough 3) operations {{prevalidate, validate_signature, validate_signature on a clone}} x 3 configurations (the request's own scope, another service, a 5-minute window) x 5 server clocks (0, +900, +901, -901, +960 s) on one authenticator object built through the unstable API from a valid request, on both carriers, each operation judged alone; (3) every ordered pair of requests validated one after the other on one thread whose date texts share the wall-clock digits (basic / extended) and a fraction of 0, 9, 21 or 40 zero digits ('.' or ',') and differ in the zone designator (Z, +00:00, +05:00, -05:00, +0010, -00:14: instants up to five hours apart), the second judged as if alone. states = (inside, side, stage)",
             n_serv, n_off, if thorough { "all" } else { "every 25th of the" }, n_rend, n_life
         ),
         bounds: json!({"servers": n_serv, "offsets": n_off, "renderings": n_rend}),
